@@ -307,7 +307,7 @@ def r04_5(ctx):
             has = [v for a, v in p.conds if a[0] == "call" and a[1] == "str::contains" and ("const", "text/html") in a[2]]
             none = p.end[1][0] == "agg" and p.end[1][2] == "None"
             built = any(e[0] == "call" and e[1] == "filter::html_body_action::HtmlBodyVisitor::new" for e in p.events)
-            rows.setdefault((kind[0] if kind else None, ct[0] if ct else None, has[0] if has else None), set()).add(("None" if none else "built" if built else "some"))
+            rows.setdefault((kind[0] if kind else None, ct[0] if ct else None, has[0] if has else None), set()).add(("built" if built else "None" if none else "some"))  # (the visitor constructor itself may decline: still "built")
         r.ob("gating:html:other-content-type->None", rows.get(("HTML", "Some", 0)) == {"None"}, f.site, "HTML filter with a content type that does not contain text/html is not built: %s" % rows.get(("HTML", "Some", 0)))
         r.ob("gating:html:text/html->built", rows.get(("HTML", "Some", 1)) == {"built"}, f.site, "content type containing text/html -> visitor built")
         r.ob("gating:html:no-content-type->built", rows.get(("HTML", "None", None)) == {"built"}, f.site, "no content type -> HTML assumed")
